@@ -79,7 +79,13 @@ impl Context {
 			}
 			heap.push((conf, k));
 		});
-		heap.sort_by(|a, b| b.0.partial_cmp(&a.0).unwrap_or(Ordering::Equal));
+		// Bindings are enumerated in hash order, which depends on string addresses:
+		// equally similar names are ordered by name to keep the message reproducible
+		heap.sort_by(|a, b| {
+			b.0.partial_cmp(&a.0)
+				.unwrap_or(Ordering::Equal)
+				.then_with(|| a.1.as_str().cmp(b.1.as_str()))
+		});
 
 		bail!(VariableIsNotDefined(
 			name,
